@@ -619,6 +619,8 @@ pub fn generate(seed: u64, p: &Profile) -> History {
     };
     // Per-run share (in quarters) of compaction turns that are long ones.
     let long_turns = *rng.pick(&[0u64, 1, 3]);
+    // Per-run: do write batches repeat keys?
+    let repeat_keys = p.mode == Mode::Kvs && rng.chance(1, 4);
     let mut ops = Vec::with_capacity(nops);
     let mut slots_open = [false; 3];
     while ops.len() < nops {
@@ -635,7 +637,9 @@ pub fn generate(seed: u64, p: &Profile) -> History {
                 let mut ks: Vec<usize> = Vec::new();
                 while ks.len() < n {
                     let k = pick_key(&mut rng);
-                    if !ks.contains(&k) {
+                    // a batch may name a key more than once (the last entry wins); only through
+                    // the key-value API: an ingested table cannot hold one (key, timestamp) twice
+                    if !ks.contains(&k) || (repeat_keys && rng.chance(1, 2)) {
                         ks.push(k);
                     }
                 }
